@@ -72,9 +72,13 @@ pub fn main(args: &Args) -> i32 {
             // a quarter of the histories start with "an admin removes a member and adds a newcomer,
             // applying both at once": the newcomer takes over the freed leaf while the removed
             // member (not yet told) can still encrypt for the epoch it is in
-            (plan_strategy_with(&opts, &weights, len.clone()), 0u8..4, any::<u16>(), 0usize..6)
+            (plan_strategy_with(&opts, &weights, len.clone()), 0u8..8, any::<u16>(), 0usize..6)
                 .prop_map(|(mut p, roll, target, at)| {
-                    if roll == 0 {
+                    if roll == 7 {
+                        // "... or any other group": a message of the losing branch of a commit race
+                        // is also posted into the second group, then the race is resolved
+                        crate::plangen::crosspost_rollback_prelude(&mut p, target % 2 == 0);
+                    } else if roll < 2 {
                         let at = at.min(p.ops.len());
                         p.ops.insert(at, Op::Add { m: 0, ts: 2, apply: Apply::Immediate, extra: 0 });
                         p.ops.insert(at, Op::Remove { m: 0, target, ts: 1, apply: Apply::Immediate, extra: 0 });
